@@ -95,6 +95,8 @@ int ChanBatch(const ChanOptions &opt);
 // Executes the plans in a JSONL file, one result line per plan on |out|.
 int ChanExec(const std::string &plans_path, const std::string &out_path,
              const std::string &repo, int workers, const std::string &log_dir);
+// Runs the canaries (see canary_chan.cc); exit 0 iff all behave.
+int ChanCanary(const ChanOptions &opt);
 // Prints the plan of run |idx| of the batch described by |opt|.
 int ChanPlanOf(const ChanOptions &opt, const std::string &idxs);
 
